@@ -32,12 +32,12 @@ function moduleWith(placement, c, c2) {
   if (placement === 'fileHead') L.push(c);
   L.push(placement === 'afterImportSameLine' ? `import C0 from "probe:C0"; ${c}` : 'import C0 from "probe:C0";');
   if (placement === 'beforeFirst') L.push(c);
-  L.push('export const t0 = () => <div id="a"><span>s</span><>frag{g0}</></div>;');
+  L.push('export const t0 = () => <div id="a" v-show={g0}><span v-foo={g0}>s</span><>frag{g0}</><input v-model={mv} /></div>;');
   if (placement === 'beforeMiddle') L.push(c);
   if (c2) L.push(c2.text);
   L.push('function inner() {');
   if (placement === 'insideFunction') L.push('  ' + c.replace(/\n/g, '\n  '));
-  L.push('  return <C0 x={g0}><i />{g0}</C0>;', '}');
+  L.push('  return <C0 x={g0} v-bar:arg_m={g0}><i />{g0}</C0>;', '}');
   L.push('export const t1 = () => inner();');
   if (placement === 'beforeLast') L.push(c);
   L.push(placement === 'insideJsx' ? `export const t2 = () => <>{${c.startsWith('//') ? '/* ' + c.slice(3) + ' */' : c}}<b /></>;` : 'export const t2 = () => <><b /></>;');
@@ -83,7 +83,7 @@ export function* generate({ tier, seed }) {
 
 const ENV = {
   globals: {
-    g0: { v: { k: 'str', v: 'G' }, log: false },
+    g0: { v: { k: 'str', v: 'G' }, log: false }, mv: { v: { k: 'str', v: 'M' }, log: false },
     h: { v: { k: 'factory', id: 'h' }, log: false }, myH: { v: { k: 'factory', id: 'myH' }, log: false }, $h: { v: { k: 'factory', id: '$h' }, log: false },
     optH: { v: { k: 'factory', id: 'optH' }, log: false }, F: { v: { k: 'sent', id: 'F' }, log: false },
   },
